@@ -759,5 +759,358 @@ theorem doRPC_is_trace (w : World) (d dest : Nat) (k : Kind) : ∃ evs, (doRPC w
     · refine ⟨getConnEvs w d dest ++ e2, ?_⟩
       rw [h2, getConn_world, run_append]
 
+
+/-! ### non-vacuity of Part 1: cluster 7 and cluster 8 both have a node 1; the dialer's address map is wrong first -/
+
+def exWorld : World :=
+  { procs := [{ ident := ⟨7, 1⟩, addr := 0, alive := true }, { ident := ⟨8, 1⟩, addr := 1, alive := true }],
+    dialers := [{ ident := ⟨7, 2⟩, addrs := [(1, 1)] }] }
+
+example : Fresh exWorld := ⟨rfl, rfl⟩
+/-- node (7,2) dials "node 1" at the address of (8,1): `IdentityError`, nothing processed, connection closed on
+both ends, nothing but the identity request was written -/
+example : (doRPC exWorld 0 1 .vote).err = .identityErr ∧ (doRPC exWorld 0 1 .vote).world.processed = [] ∧
+    (doRPC exWorld 0 1 .vote).world.conns.map (fun c => (c.dstate, c.lopen, c.wrote.length, c.lident)) =
+      [(.closed, false, 1, ⟨8, 1⟩)] := by decide
+/-- after the configuration corrects the address the request is processed by (7,1) … -/
+example : (doRPC (step exWorld (.addrUpdate 0 1 0)) 0 1 .vote).err = .ok ∧
+    (doRPC (step exWorld (.addrUpdate 0 1 0)) 0 1 .vote).world.processed.map (fun p => (p.lib, p.listener, p.intended)) =
+      [(true, ⟨7, 1⟩, ⟨7, 1⟩)] := by decide
+/-- … the connection is pooled and reused without a new handshake even when the map is wrong again … -/
+example :
+    let w1 := (doRPC (step exWorld (.addrUpdate 0 1 0)) 0 1 .vote).world
+    let w2 := (doRPC (step w1 (.addrUpdate 0 1 1)) 0 1 .append).world
+    w1.conns.map (·.pooled) = [true] ∧ w2.conns.length = 1 ∧
+    w2.processed.map (fun p => (p.kind, p.listener)) = [(.vote, ⟨7, 1⟩), (.append, ⟨7, 1⟩)] := by decide
+/-- … and when (8,1) takes over address 0 the pooled connection is dead: I/O error, nothing reaches (8,1);
+the next call dials again and is refused by the handshake -/
+example :
+    let w1 := (doRPC (step exWorld (.addrUpdate 0 1 0)) 0 1 .vote).world
+    let w2 := step w1 (.start 0 ⟨8, 1⟩)
+    let r3 := doRPC w2 0 1 .append
+    let r4 := doRPC r3.world 0 1 .append
+    r3.err = .ioErr ∧ r4.err = .identityErr ∧ r4.world.processed.length = 1 := by decide
+
+/-! ## Part 2 — the directory lock, SetIdentity, New, Serve -/
+
+open Lock
+
+def inoOf : PC → Option Nat
+  | .idle => none
+  | .created i => some i
+  | .linked i => some i
+  | .linkFailed i => some i
+  | .checked i _ => some i
+  | .holding i => some i
+
+/-- the inode with which a process owns the name `lock` -/
+def owns : PC → Option Nat
+  | .linked i => some i
+  | .checked i r => if r = .ok then some i else none
+  | .holding i => some i
+  | _ => none
+
+def LInv (s : State) : Prop :=
+  (∀ p i, owns (s.procs p).pc = some i → s.lock = some i) ∧
+  (∀ p i, inoOf (s.procs p).pc = some i → i < s.next) ∧
+  (∀ p q i, inoOf (s.procs p).pc = some i → inoOf (s.procs q).pc = some i → p = q)
+
+theorem owns_ino (pc : PC) (i : Nat) (h : owns pc = some i) : inoOf pc = some i := by
+  cases pc <;> simp_all [owns, inoOf]
+
+theorem linv_step (s : State) (e : Lock.Ev) (h : LInv s) : LInv (Lock.step s e) := by
+  obtain ⟨h1, h2, h3⟩ := h
+  cases e <;> simp only [Lock.step] <;> repeat' split
+  all_goals first
+    | exact ⟨h1, h2, h3⟩
+    | (refine ⟨?_, ?_, ?_⟩ <;> simp only [State.setProc] <;> grind [owns, inoOf, owns_ino])
+
+theorem linv_run (s : State) (evs : List Lock.Ev) (h : LInv s) : LInv (Lock.run s evs) := by
+  induction evs generalizing s with
+  | nil => exact h
+  | cons e evs ih => exact ih (Lock.step s e) (linv_step s e h)
+
+/-- nobody is inside `lockDir` or a critical section (a stale `lock` file may or may not be present) -/
+def Quiet (s : State) : Prop := ∀ p, (s.procs p).pc = .idle
+
+theorem linv_quiet (s : State) (h : Quiet s) : LInv s := by
+  refine ⟨?_, ?_, ?_⟩ <;> intro p <;> simp [h p, owns, inoOf]
+
+/-- **lock_exclusive** — any number of processes run `lockDir`, their critical section and `unlockDir`,
+interleaved at the granularity of single file-system calls in any order: at no moment do two of them hold the
+lock (have returned nil from `lockDir` and not yet called `unlockDir`); and whoever holds it owns the name
+`lock`, so every `os.Link` of anybody else fails meanwhile. -/
+theorem lock_exclusive (s : State) (hq : Quiet s) (evs : List Lock.Ev) :
+    (∀ p q i j, ((Lock.run s evs).procs p).pc = .holding i → ((Lock.run s evs).procs q).pc = .holding j → p = q) ∧
+    (∀ p i, ((Lock.run s evs).procs p).pc = .holding i → (Lock.run s evs).lock = some i) := by
+  obtain ⟨h1, _, h3⟩ := linv_run s evs (linv_quiet s hq)
+  refine ⟨?_, ?_⟩
+  · intro p q i j hp hq'
+    have e1 := h1 p i (by rw [hp]; rfl)
+    have e2 := h1 q j (by rw [hq']; rfl)
+    rw [e1] at e2
+    injection e2 with e2
+    subst e2
+    exact h3 p q i (by rw [hp]; rfl) (by rw [hq']; rfl)
+  · intro p i hp
+    exact h1 p i (by rw [hp]; rfl)
+
+/-- the holder keeps holding until ITS `unlockDir` -/
+theorem holding_until_unlock (s : State) (p i : Nat) (e : Lock.Ev) (h : (s.procs p).pc = .holding i)
+    (hne : e ≠ .unlock p) : ((Lock.step s e).procs p).pc = .holding i := by
+  cases e <;> simp only [Lock.step] <;> repeat' split
+  all_goals first
+    | exact h
+    | (simp only [State.setProc]; grind)
+
+theorem holding_until_unlock_run (s : State) (p i : Nat) (evs : List Lock.Ev) (h : (s.procs p).pc = .holding i)
+    (hne : Lock.Ev.unlock p ∉ evs) : ((Lock.run s evs).procs p).pc = .holding i := by
+  induction evs generalizing s with
+  | nil => exact h
+  | cons e evs ih =>
+    simp only [List.mem_cons, not_or] at hne
+    exact ih (Lock.step s e) (holding_until_unlock s p i e h (fun he => hne.1 he.symm)) hne.2
+
+/-- while the name `lock` exists every `os.Link` fails and that `lockDir` call ends with `ErrLockExists` -/
+theorem link_fails_while_locked (s : State) (q j i : Nat) (hq : (s.procs q).pc = .created j) (hl : s.lock = some i) :
+    ((Lock.step s (.link q)).procs q).pc = .linkFailed j ∧
+    ((Lock.step (Lock.step s (.link q)) (.cleanup q)).procs q).last = some .lockExists ∧
+    ((Lock.step (Lock.step s (.link q)) (.cleanup q)).procs q).pc = .idle := by
+  simp [Lock.step, hq, hl, State.setProc]
+
+/-- What breaks without the discipline "only the holder unlocks": `unlockDir` removes the name whoever owns it.
+(Not a defect of the library: both call sites run after a successful `lockDir`.) -/
+theorem rogue_unlock_breaks_exclusion :
+    ∃ s : State, (s.procs 0).pc = .holding 0 ∧ (s.procs 1).pc = .holding 1 :=
+  ⟨Lock.run (rogueUnlock (Lock.run {} (lockDirEvs 0 .serve))) (lockDirEvs 1 .serve), by decide, by decide⟩
+
+/-- one event changes the stored identity only if it is the write step of a `SetIdentity(cid, nid)` with non-zero
+ids, and only when the stored value has a zero component -/
+theorem stored_step (s : State) (e : Lock.Ev) :
+    (Lock.step s e).stored = s.stored ∨
+    ((s.stored.1 = 0 ∨ s.stored.2 = 0) ∧
+      ∃ p cid nid, e = .idWrite p cid nid ∧ cid ≠ 0 ∧ nid ≠ 0 ∧ (Lock.step s e).stored = (cid, nid)) := by
+  cases e with
+  | idWrite p cid nid =>
+    simp only [Lock.step]
+    split
+    · split
+      · rename_i v _
+        by_cases hz : cid = 0 ∨ nid = 0
+        · rw [if_pos hz]; exact Or.inl rfl
+        · rw [if_neg hz]
+          by_cases he : cid = v.1 ∧ nid = v.2
+          · rw [if_pos he]; exact Or.inl rfl
+          · rw [if_neg he]
+            by_cases hv : v.1 ≠ 0 ∧ v.2 ≠ 0
+            · rw [if_pos hv]; exact Or.inl rfl
+            · rw [if_neg hv]
+              by_cases hs : s.stored = v
+              · rw [if_pos hs]
+                right
+                simp only [not_or] at hz
+                refine ⟨?_, p, cid, nid, rfl, hz.1, hz.2, rfl⟩
+                rw [hs]
+                by_cases h1 : v.1 = 0
+                · exact Or.inl h1
+                · by_cases h2 : v.2 = 0
+                  · exact Or.inr h2
+                  · exact absurd ⟨h1, h2⟩ hv
+              · rw [if_neg hs]; exact Or.inl rfl
+      · exact Or.inl rfl
+    · exact Or.inl rfl
+  | _ => left; simp only [Lock.step]; (repeat' split) <;> rfl
+
+/-- **identity_immutable** — once both ids are non-zero nothing changes the stored identity: not `SetIdentity`
+with other ids (by anyone, concurrently, interleaved in any way), not lock traffic. -/
+theorem identity_immutable (s : State) (evs : List Lock.Ev) (h : s.stored.1 ≠ 0 ∧ s.stored.2 ≠ 0) :
+    (Lock.run s evs).stored = s.stored := by
+  induction evs generalizing s with
+  | nil => rfl
+  | cons e evs ih =>
+    have hs : (Lock.step s e).stored = s.stored := by
+      rcases stored_step s e with h1 | ⟨h1, _⟩
+      · exact h1
+      · rcases h1 with h1 | h1
+        · exact absurd h1 h.1
+        · exact absurd h1 h.2
+    show (Lock.run (Lock.step s e) evs).stored = s.stored
+    rw [ih (Lock.step s e) (by rw [hs]; exact h), hs]
+
+/-- what the API can produce: no identity, or both ids non-zero -/
+def StoredWF (s : State) : Prop := s.stored = (0, 0) ∨ (s.stored.1 ≠ 0 ∧ s.stored.2 ≠ 0)
+
+theorem storedWF_run (s : State) (evs : List Lock.Ev) (h : StoredWF s) : StoredWF (Lock.run s evs) := by
+  induction evs generalizing s with
+  | nil => exact h
+  | cons e evs ih =>
+    apply ih
+    rcases stored_step s e with h1 | ⟨_, p, cid, nid, _, hc, hn, h1⟩
+    · unfold StoredWF; rw [h1]; exact h
+    · right; rw [h1]; exact ⟨hc, hn⟩
+
+/-- hence: the stored identity changes at most once, from `(0,0)` -/
+theorem identity_set_once (s : State) (evs : List Lock.Ev) (h : StoredWF s) :
+    (Lock.run s evs).stored = s.stored ∨ s.stored = (0, 0) := by
+  rcases h with h | h
+  · exact Or.inr h
+  · exact Or.inl (identity_immutable s evs h)
+
+/-- `SetIdentity` as a whole is a trace of the lock automaton -/
+theorem setIdentity_is_trace (s : State) (p cid nid : Nat) :
+    ∃ evs, (setIdentity s p cid nid).state = Lock.run s evs := by
+  unfold setIdentity
+  split
+  · exact ⟨[], rfl⟩
+  · split
+    · exact ⟨[], rfl⟩
+    · dsimp only
+      split
+      · exact ⟨lockDirEvs p .setId ++ [.idRead p, .idWrite p cid nid, .unlock p], by simp [Lock.run, List.foldl_append]⟩
+      · exact ⟨lockDirEvs p .setId, rfl⟩
+
+/-- **What the real `SetIdentity` guarantees.**  With a different non-zero identity stored it leaves the
+directory alone — but, because the deferred `err = unlockDir(storageDir)` overwrites the result, it REPORTS
+SUCCESS (`nil`) instead of `ErrIdentityAlreadySet`.  The stored value is the one thing that is right. -/
+theorem setIdentity_guarantee (s : State) (p cid nid : Nat) (h : s.stored.1 ≠ 0 ∧ s.stored.2 ≠ 0) :
+    (setIdentity s p cid nid).state.stored = s.stored := by
+  obtain ⟨evs, he⟩ := setIdentity_is_trace s p cid nid
+  rw [he]; exact identity_immutable s evs h
+
+/-- the mis-report, on a concrete input: stored `(1,2)`, `SetIdentity(dir, 3, 4)` returns nil although the body
+computed `ErrIdentityAlreadySet`; the directory still says `(1,2)` and the lock is released -/
+theorem setIdentity_mismatch_reports_ok :
+    let r := setIdentity { stored := (1, 2) } 0 3 4
+    r.returned = .ok ∧ r.body = some .alreadySet ∧ r.state.stored = (1, 2) ∧ r.state.lock = none := by decide
+
+/-- a held lock makes `SetIdentity` fail with `ErrLockExists` and change nothing -/
+theorem setIdentity_locked (s : State) (p cid nid i : Nat) (hc : cid ≠ 0) (hn : nid ≠ 0)
+    (hp : (s.procs p).pc = .idle) (hl : s.lock = some i) :
+    (setIdentity s p cid nid).returned = .lockExists ∧ (setIdentity s p cid nid).state.stored = s.stored := by
+  unfold setIdentity
+  simp [hc, hn, lockDirEvs, Lock.run, Lock.step, hp, hl, State.setProc, isHolding]
+
+/-- **new_requires_identity** — `New` succeeds exactly when both ids are non-zero; the node then carries the
+stored identity, and by `identity_immutable` the directory keeps saying the same for ever after. -/
+theorem new_requires_identity (s : State) :
+    ((newNode s).1 = .ok ↔ (s.stored.1 ≠ 0 ∧ s.stored.2 ≠ 0)) ∧
+    ((newNode s).1 ≠ .ok → (newNode s).1 = .identityNotSet) ∧
+    ((newNode s).1 = .ok → ∀ evs, (⟨(Lock.run s evs).stored.1, (Lock.run s evs).stored.2⟩ : Identity) = (newNode s).2) := by
+  unfold newNode
+  split
+  · rename_i h
+    refine ⟨⟨fun h' => by simp at h', fun h' => ?_⟩, fun _ => rfl, fun h' => by simp at h'⟩
+    rcases h with h | h
+    · exact absurd h h'.1
+    · exact absurd h h'.2
+  · rename_i h
+    simp only [not_or] at h
+    refine ⟨⟨fun _ => h, fun _ => rfl⟩, fun h' => absurd rfl h', fun _ evs => ?_⟩
+    rw [identity_immutable s evs h]
+
+/-- **serve_holds_lock** — from the moment `Serve`'s `lockDir` returned nil until `Serve` returns (its deferred
+`unlockDir`), whatever else happens on the directory: it still holds, the name `lock` is its link, nobody else
+holds, and every `SetIdentity` / `Serve` started by anyone else meanwhile gets `ErrLockExists` at its link step. -/
+theorem serve_holds_lock (s : State) (hq : Quiet s) (evs₁ evs₂ : List Lock.Ev) (p i : Nat)
+    (hserve : ((Lock.run s evs₁).procs p).pc = .holding i) (hno : Lock.Ev.unlock p ∉ evs₂) :
+    let s' := Lock.run (Lock.run s evs₁) evs₂
+    (s'.procs p).pc = .holding i ∧ s'.lock = some i ∧ ∀ q j, (s'.procs q).pc = .holding j → q = p := by
+  intro s'
+  have hp : (s'.procs p).pc = .holding i := holding_until_unlock_run _ p i evs₂ hserve hno
+  have he : s' = Lock.run s (evs₁ ++ evs₂) := by simp [s', Lock.run, List.foldl_append]
+  obtain ⟨x1, x2⟩ := lock_exclusive s hq (evs₁ ++ evs₂)
+  rw [← he] at x1 x2
+  exact ⟨hp, x2 p i hp, fun q j hq' => x1 q p j i hq' hp⟩
+
+/-- `Serve` start/end as defined in the model are such traces -/
+theorem serveStart_is_trace (s : State) (p : Nat) : serveStart s p = Lock.run s (lockDirEvs p .serve) := rfl
+
+/-! ### non-vacuity of Part 2 -/
+
+/-- three processes race, their file-system calls interleaved; exactly process 1 (first to link) holds -/
+example :
+    let s := Lock.run {} [.create 0 .serve, .create 1 .setId, .create 2 .serve, .link 1, .link 0, .stat 1, .link 2,
+      .cleanup 0, .cleanup 1, .cleanup 2]
+    (s.procs 0).pc = .idle ∧ (s.procs 0).last = some .lockExists ∧ (s.procs 1).pc = .holding 1 ∧
+    (s.procs 2).last = some .lockExists ∧ s.lock = some 1 ∧ s.temps = [] := by decide
+example : Quiet ({} : State) := fun _ => rfl
+/-- first `SetIdentity` stores, a different one afterwards changes nothing, zero ids are refused -/
+example : (setIdentity {} 0 1 2).state.stored = (1, 2) ∧ (setIdentity {} 0 1 2).returned = .ok ∧
+    (setIdentity {} 0 0 2).returned = .cidZero ∧ (setIdentity {} 0 1 0).returned = .nidZero := by decide
+example : (newNode {}).1 = .identityNotSet ∧ (newNode (setIdentity {} 0 1 2).state).1 = .ok := by decide
+/-- `Serve` holds; a second `Serve` and a `SetIdentity` on the same directory fail; after the first returns they succeed -/
+example :
+    let s1 := serveStart { stored := (1, 2) } 0
+    let s2 := serveStart s1 1
+    (s1.procs 0).pc = .holding 0 ∧ (s2.procs 1).last = some .lockExists ∧
+    (setIdentity s2 2 1 2).returned = .lockExists ∧
+    ((serveStart (serveEnd s2 0) 1).procs 1).pc = .holding 2 := by decide
+
+/-! ## The property -/
+
+/-- C20 over the model: for every trace of the connection automaton from a world without connections (any
+listeners under any identities on any addresses, any dialers, any address maps and resolver answers, changing
+in any way) and every interleaving of lock/identity operations on a directory:
+
+1. a request of a library dialer reaches `onRequest` only at a listener whose `(cid,nid)` equals the dialer's
+   intended `(cid,nid)`, and dialer and listener are then of the same cluster;
+2. on a connection to anybody else the dialer writes nothing but its identity request, and never pools it;
+3. a pooled connection is attached to the identity verified when it was dialled, and what is processed from a
+   connection is processed by the process it was dialled to;
+4. at most one process holds the directory lock at a time;
+5. a stored identity with both ids non-zero never changes;
+6. `New` succeeds exactly on a directory with both ids non-zero. -/
+def C20_statement : Prop :=
+  (∀ (w : World) (evs : List Conn.Ev), Fresh w →
+    (∀ p ∈ (Conn.run w evs).processed, p.lib = true → p.listener = p.intended ∧ p.src.cid = p.listener.cid) ∧
+    (∀ c ∈ (Conn.run w evs).conns, c.lib = true → c.lident ≠ c.intended →
+        (c.wrote = [] ∨ c.wrote = [idReq c]) ∧ c.pooled = false) ∧
+    (∀ c ∈ (Conn.run w evs).conns, c.pooled = true → c.lib = true ∧ c.lident = c.intended) ∧
+    (∀ p ∈ (Conn.run w evs).processed, ∃ c, (Conn.run w evs).conns[p.conn]? = some c ∧
+        p.pid = c.lpid ∧ p.listener = c.lident ∧ p.intended = c.intended)) ∧
+  (∀ (s : State) (evs : List Lock.Ev), Quiet s →
+    ∀ p q i j, ((Lock.run s evs).procs p).pc = .holding i → ((Lock.run s evs).procs q).pc = .holding j → p = q) ∧
+  (∀ (s : State) (evs : List Lock.Ev), s.stored.1 ≠ 0 ∧ s.stored.2 ≠ 0 → (Lock.run s evs).stored = s.stored) ∧
+  (∀ s : State, (newNode s).1 = .ok ↔ (s.stored.1 ≠ 0 ∧ s.stored.2 ≠ 0))
+
+theorem C20 : C20_statement := by
+  refine ⟨fun w evs hw => ⟨?_, ?_, ?_, ?_⟩, ?_, ?_, ?_⟩
+  · intro p hp hlib
+    obtain ⟨a, b⟩ := (no_cross_cluster_influence w hw evs).1 p hp hlib
+    exact ⟨b.symm, a⟩
+  · intro c hc hlib hne
+    obtain ⟨a, b, _⟩ := mismatch_writes_nothing_else w hw evs c hc hlib hne
+    exact ⟨a, b⟩
+  · intro c hc hpool
+    obtain ⟨a, _, b, _⟩ := (pooled_conn_identity_stable w hw evs).1 c hc hpool
+    exact ⟨a, b⟩
+  · intro p hp
+    obtain ⟨c, hc, a, b, d, _⟩ := (pooled_conn_identity_stable w hw evs).2.1 p hp
+    exact ⟨c, hc, a, b, d⟩
+  · intro s evs hq
+    exact (lock_exclusive s hq evs).1
+  · exact fun s evs h => identity_immutable s evs h
+  · exact fun s => (new_requires_identity s).1
+
 end C20
 end Raft
+
+#print axioms Raft.C20.C20
+#print axioms Raft.C20.handshake_isolation
+#print axioms Raft.C20.mismatch_writes_nothing_else
+#print axioms Raft.C20.mismatch_closes
+#print axioms Raft.C20.listener_closes_on_mismatch
+#print axioms Raft.C20.pooled_conn_identity_stable
+#print axioms Raft.C20.no_cross_cluster_influence
+#print axioms Raft.C20.listener_does_not_require_handshake
+#print axioms Raft.C20.doRPC_is_trace
+#print axioms Raft.C20.lock_exclusive
+#print axioms Raft.C20.holding_until_unlock_run
+#print axioms Raft.C20.rogue_unlock_breaks_exclusion
+#print axioms Raft.C20.identity_immutable
+#print axioms Raft.C20.identity_set_once
+#print axioms Raft.C20.setIdentity_guarantee
+#print axioms Raft.C20.setIdentity_mismatch_reports_ok
+#print axioms Raft.C20.setIdentity_locked
+#print axioms Raft.C20.new_requires_identity
+#print axioms Raft.C20.serve_holds_lock
